@@ -53,6 +53,8 @@ mod consts;
 mod entry;
 mod structs;
 mod wgsl;
+#[cfg(feature = "verif-hooks")]
+pub mod verif;
 
 pub use naga::valid::Capabilities as WgslCapabilities;
 
@@ -314,27 +316,47 @@ fn create_shader_module_inner(
 ) -> Result<String, CreateModuleError> {
     let module = naga::front::wgsl::parse_str(wgsl_source)
         .map_err(|error| CreateModuleError::ParseError { error })?;
+    #[cfg(feature = "verif-hooks")]
+    verif::point("gen:parsed");
 
     if let Some(options) = options.validate.as_ref() {
         naga::valid::Validator::new(ValidationFlags::all(), options.capabilities)
             .validate(&module)
             .map_err(|error| CreateModuleError::ValidationError { error })?;
     }
+    #[cfg(feature = "verif-hooks")]
+    verif::point("gen:validated");
 
     let bind_group_data = get_bind_group_data(&module)?;
+    #[cfg(feature = "verif-hooks")]
+    verif::point("gen:groups");
 
     let global_stages = wgsl::global_shader_stages(&module);
     let entry_stages = wgsl::entry_stages(&module);
+    #[cfg(feature = "verif-hooks")]
+    verif::point("gen:stages");
 
     // Write all the structs, including uniforms and entry function inputs.
     let structs = structs::structs(&module, options);
+    #[cfg(feature = "verif-hooks")]
+    verif::point("gen:structs");
     let consts = consts::consts(&module);
+    #[cfg(feature = "verif-hooks")]
+    verif::point("gen:consts");
     let bind_groups_module = bind_groups_module(&bind_group_data, &global_stages);
+    #[cfg(feature = "verif-hooks")]
+    verif::point("gen:bindgroups");
     let vertex_module = vertex_struct_methods(&module);
+    #[cfg(feature = "verif-hooks")]
+    verif::point("gen:vertex");
     let compute_module = compute_module(&module);
+    #[cfg(feature = "verif-hooks")]
+    verif::point("gen:compute");
     let entry_point_constants = entry_point_constants(&module);
     let vertex_states = vertex_states(&module);
     let fragment_states = fragment_states(&module);
+    #[cfg(feature = "verif-hooks")]
+    verif::point("gen:entries");
 
     // Use a string literal if no include path is provided.
     let included_source = wgsl_include_path
@@ -376,6 +398,8 @@ fn create_shader_module_inner(
     };
 
     let override_constants = pipeline_overridable_constants(&module);
+    #[cfg(feature = "verif-hooks")]
+    verif::point("gen:overrides");
 
     let push_constant_stages = push_constant_stages.map(|stages| {
         quote! {
@@ -397,6 +421,8 @@ fn create_shader_module_inner(
         #push_constant_stages
         #create_pipeline_layout
     };
+    #[cfg(feature = "verif-hooks")]
+    verif::point("gen:assembled");
 
     if options.rustfmt {
         Ok(pretty_print_rustfmt(output))
@@ -457,10 +483,16 @@ fn pretty_print_rustfmt(tokens: TokenStream) -> String {
         .stderr(Stdio::null())
         .spawn()
     {
+        #[cfg(feature = "verif-hooks")]
+        verif::point("fmt:spawned");
         let stdin = proc.stdin.as_mut().unwrap();
         stdin.write_all(value.as_bytes()).unwrap();
+        #[cfg(feature = "verif-hooks")]
+        verif::point("fmt:written");
 
         let output = proc.wait_with_output().unwrap();
+        #[cfg(feature = "verif-hooks")]
+        verif::point("fmt:waited");
         if output.status.success() {
             return String::from_utf8(output.stdout).unwrap();
         }
